@@ -294,6 +294,11 @@ func vMuxData(pid uint16, afCase, hdrCase, plen int) (*MuxerData, gUnit) {
 		u.hasAF = true
 		u.priv = vnondetBytes(175)
 		d.AdaptationField = &PacketAdaptationField{HasTransportPrivateData: true, TransportPrivateDataLength: 175, TransportPrivateData: u.priv}
+	case 9:
+		// private data so long that the adaptation field alone exceeds a packet (F4 region as well)
+		u.hasAF = true
+		u.priv = vnondetBytes(190)
+		d.AdaptationField = &PacketAdaptationField{HasTransportPrivateData: true, TransportPrivateDataLength: 190, TransportPrivateData: u.priv}
 	case 4:
 		// private-data flag set, no private data bytes
 		u.hasAF, u.rai = true, vnondetBool()
@@ -382,18 +387,25 @@ func (g *gMux) opWriteData(d *MuxerData, u gUnit) {
 	}
 	vassertK("C01.data.somepackets", "F4", f4, npk >= 1)
 	var pes []byte
+	firstPayload := true
 	for k := 0; k < npk; k++ {
 		p := g.decodeTS(out[off+188*k : off+188*(k+1)])
 		vassert("C04.data.pid", p.pid == d.PID && !p.tei)
+		if f4 && k == 0 && p.hasAF && !p.hasPayload {
+			// (not what the current code does, but consistent with C04:) an adaptation field too large to share a
+			// packet with the PES header may travel in a packet of its own: no payload, no unit start, counter untouched
+			vassert("C04.data.afcarrier", !p.pusi)
+			continue
+		}
 		vassert("C04.data.haspayload", p.hasPayload)
 		g.expectCC(e, p.cc, "F4", f4 || g.afOverflow)
-		vassert("C04.data.pusi", p.pusi == (k == 0))
+		vassert("C04.data.pusi", p.pusi == firstPayload)
 		if p.hasAF && p.afLen > 0 {
 			fl := afFieldsLen(p.af)
 			for j := fl; j < p.afLen; j++ {
 				vassert("C04.data.stuffing", p.af[j] == 0xff)
 			}
-			if k == 0 && u.hasAF {
+			if firstPayload && u.hasAF {
 				vassertK("C01.data.af.first", "F4", f4, p.pusi)
 				vassert("C01.data.af.rai", (p.af[0]&0x40 != 0) == u.rai)
 				if u.hasPCR {
@@ -406,9 +418,10 @@ func (g *gMux) opWriteData(d *MuxerData, u gUnit) {
 				vassert("C04.data.af.onlystuffing", p.af[0] == 0)
 			}
 		}
-		if k == 0 {
+		if firstPayload {
 			vassert("C04.data.startcode", len(p.payload) >= 6 && p.payload[0] == 0 && p.payload[1] == 0 && p.payload[2] == 1)
 		}
+		firstPayload = false
 		pes = append(pes, p.payload...)
 	}
 	if f4 {
@@ -857,4 +870,28 @@ func HarnessMuxBig(plen, audio int) {
 	}
 	g.demuxAll()
 	vreach("mux.big.end")
+}
+
+// muxPairLens: payload lengths (PTS-only header of 14 bytes) whose last packet needs exactly 1 / 2 / 0 / many / 1 (second
+// packet) stuffing bytes
+var muxPairLens = []int{169, 168, 170, 10, 353}
+
+// HarnessMuxPair: two (three with `third`) consecutive WriteData calls on one PID whose last packets need different
+// amounts of stuffing - in particular the one-byte adaptation field followed by a longer one and vice versa: state kept
+// by the muxer between calls must not leak from one packet into the next
+func HarnessMuxPair(i1, i2, third int) {
+	g := newGMux(50)
+	pid := uint16(0x100)
+	g.opAdd(pid, StreamTypeH264Video)
+	g.opSetPCR(pid)
+	d1, u1 := vMuxData(pid, 0, 1, muxPairLens[i1])
+	g.opWriteData(d1, u1)
+	d2, u2 := vMuxData(pid, 0, 1, muxPairLens[i2])
+	g.opWriteData(d2, u2)
+	if third == 1 {
+		d3, u3 := vMuxData(pid, 1, 1, 100)
+		g.opWriteData(d3, u3)
+	}
+	g.demuxAll()
+	vreach("mux.pair.end")
 }
